@@ -1,9 +1,9 @@
 // C13 harness: (a) file_server::normalize_path called directly; (b) real cppcms::service instances with the
-// built-in file server enabled (one per configuration, all in this process, each on its own ephemeral
+// built-in file server enabled (one per configuration, all in this process, each on its own kernel-chosen
 // loopback HTTP port) queried with raw request targets.
 //
 // argv[1] (optional): JSON file  {"services":[ <cppcms configuration object> , ... ]}  written by checks/C13.py;
-//                     "service.list[0].port" is filled in here.
+//                     the listener (loopback, port 0) is filled in here.
 // case lines:
 //   np|npi|rs <hex>     -> <tag> <hex of normalize_path(input)>
 //   rq <k> <hex>        -> rq <hex of the complete reply of service k to "GET <raw> HTTP/1.0">  ("-" = nothing, "!T" suffix = timeout)
@@ -25,16 +25,25 @@
 #include <fstream>
 #include <thread>
 #include <memory>
+#include <atomic>
+#include <dlfcn.h>
 #include "hexio.h"
 using namespace hx;
 
-static int free_port()
+// The services are configured with port 0 (the kernel picks a free one at bind time, so no other process can take
+// it in between); the port is learnt by interposing listen(): services are started one after the other and each
+// reports the port of the TCP socket it starts listening on.
+static std::atomic<int> last_listen_port(0);
+extern "C" int listen(int fd, int backlog)
 {
-	int s = socket(AF_INET, SOCK_STREAM, 0);
-	sockaddr_in a; memset(&a, 0, sizeof(a)); a.sin_family = AF_INET; a.sin_addr.s_addr = htonl(INADDR_LOOPBACK); a.sin_port = 0;
-	bind(s, (sockaddr *)&a, sizeof(a));
-	socklen_t l = sizeof(a); getsockname(s, (sockaddr *)&a, &l);
-	int p = ntohs(a.sin_port); close(s); return p;
+	typedef int (*fn)(int, int);
+	static fn real = (fn)dlsym(RTLD_NEXT, "listen");
+	int r = real(fd, backlog);
+	if (r == 0) {
+		sockaddr_in a; socklen_t l = sizeof(a); memset(&a, 0, sizeof(a));
+		if (getsockname(fd, (sockaddr *)&a, &l) == 0 && a.sin_family == AF_INET) last_listen_port = ntohs(a.sin_port);
+	}
+	return r;
 }
 
 static int connect_to(int port)
@@ -52,7 +61,7 @@ struct instance {
 	std::thread th;
 };
 
-static std::string request(int port, std::string const &raw, bool &timeout)
+static std::string request_once(int port, std::string const &raw, bool &timeout, int wait_ms)
 {
 	timeout = false;
 	int fd = connect_to(port);
@@ -67,7 +76,7 @@ static std::string request(int port, std::string const &raw, bool &timeout)
 	std::string buf;
 	for (;;) {
 		pollfd p; p.fd = fd; p.events = POLLIN; p.revents = 0;
-		int r = poll(&p, 1, 5000);
+		int r = poll(&p, 1, wait_ms);
 		if (r <= 0) { timeout = true; break; }
 		char tmp[65536];
 		ssize_t n = ::recv(fd, tmp, sizeof(tmp), 0);
@@ -76,6 +85,14 @@ static std::string request(int port, std::string const &raw, bool &timeout)
 	}
 	close(fd);
 	return buf;
+}
+
+// GET is idempotent: a reply that did not arrive in time (machine under load) is asked for once more, patiently
+static std::string request(int port, std::string const &raw, bool &timeout)
+{
+	std::string r = request_once(port, raw, timeout, 4000);
+	if (timeout || r == "CONNECT-FAILED") r = request_once(port, raw, timeout, 30000);
+	return r;
 }
 
 int main(int argc, char **argv)
@@ -92,7 +109,7 @@ int main(int argc, char **argv)
 			cppcms::json::array const &sv = all["services"].array();
 			for (size_t i = 0; i < sv.size(); i++) {
 				std::unique_ptr<instance> in(new instance());
-				in->port = free_port();
+				in->port = 0;
 				cppcms::json::value cfg = sv[i];
 				cfg["service"]["list"][0]["api"] = "http";
 				cfg["service"]["list"][0]["ip"] = "127.0.0.1";
@@ -101,13 +118,15 @@ int main(int argc, char **argv)
 				cfg["logging"]["level"] = "emergency";
 				in->srv.reset(new cppcms::service(cfg));
 				cppcms::service *s = in->srv.get();
+				last_listen_port = 0;
 				in->th = std::thread([s]() { try { s->run(); } catch (std::exception const &e) { std::cout << "SERVICE-THREW " << e.what() << std::endl; _exit(3); } });
-				inst.push_back(std::move(in));
-			}
-			for (size_t i = 0; i < inst.size(); i++) {
+				for (int tries = 0; tries < 6000 && last_listen_port == 0; tries++) usleep(5000);
+				in->port = last_listen_port;
+				if (in->port == 0) { std::cout << "HARNESS-EXCEPTION service " << i << " did not start listening" << std::endl; _exit(2); }
 				int tries = 0, fd = -1;
-				while ((fd = connect_to(inst[i]->port)) < 0 && tries++ < 400) usleep(5000);
+				while ((fd = connect_to(in->port)) < 0 && tries++ < 400) usleep(5000);
 				if (fd >= 0) close(fd);
+				inst.push_back(std::move(in));
 			}
 		}
 		std::string line;
